@@ -279,6 +279,27 @@ def clock_rules(F, R):
         R.check(len(rd) == 1 and [d for _, d in st] == ['clock::State::NotStarted'] and ob.dominates(rd[0], st[0][0]) and not ob.in_loop(st[0][0]),
                 'B.C05.reset', 'Clock::reset', 'the reset command leaves state %s (read sites: %d)' % ([d for _, d in st], len(rd)),
                 detail='reset.read() is Some => state = NotStarted (time reads as zero)')
+        # "commands of different kinds do not interfere": the running flag is written only where the set_ticking command is
+        # applied - a reset that also stops the clock would undo a start() issued after stop() in the same callback interval
+        from ..rules import some_edge
+        some = {}
+        for x, t in ob.calls():
+            if (callee_path(t) or '') == 'command::CommandReader::<T>::read':
+                lf = last_field(origin_pl(ob, t['args'][0]) or {})
+                oe = some_edge(ob, x)
+                if lf and oe is not None:
+                    some[lf[0]] = oe
+        tick_stores = [x for x, si, s in ob.stmts() if s['k'] == 'assign' and s['lhs']['p'] and pretty_place(ob, s['lhs']) == '(*self).ticking']
+        for x, t in ob.calls():
+            if (callee_path(t) or '').endswith('::store'):
+                lf = last_field(origin_pl(ob, t['args'][0]) or {})
+                if lf and lf[1] == 'clock::ClockShared' and lf[0] == 'ticking':
+                    tick_stores.append(x)
+        okc = 'set_ticking' in some and 'reset' in some and bool(tick_stores) and \
+            all(ob.dominates(some['set_ticking'], x) and not ob.dominates(some['reset'], x) for x in tick_stores)
+        R.check(okc, 'B.C05.reset', 'confined', 'the clock\'s running flag is written outside the branch that applies the set_ticking command '
+                '(e.g. by the reset): stop() followed by start() before the next callback leaves the clock stopped',
+                detail='stores to ticking: only under set_ticking.read() == Some')
         # the handle copy: the stores of ticks and of the fraction into the shared atomics
         pub = {}
         for x, t in ob.calls():
